@@ -146,12 +146,15 @@ name that could not be pre-resolved when the gun was configured: `tgt=nd|nf|nl`)
 structure DialCtx where
   gun : GunKind := .http
   dnsCache : Bool := false
+  /-- the dialer has remembered the target's address (a late target that answered before it went away) -/
+  cached : Bool := false
   redirect : Bool := false
 
 def dialCtxOf (kv : List (String × String)) : DialCtx :=
   let tgt := getS kv "tgt"
   { gun := (match getS kv "gun" with | "connect" => .connect | "http2" => .http2 | _ => .http),
     dnsCache := tgt == "nd" || tgt == "nf" || tgt == "nl",
+    cached := tgt == "nl",
     redirect := getS kv "redir" == "1" }
 
 /-- Truth tokens `fe<errno>` (the dial is refused with this errno) and `dt` (the dial times out): the model PREDICTS the
@@ -159,8 +162,8 @@ error chain — `net.Dialer`'s error through the DNS-caching dialer, the CONNECT
 (`Model.C10.dialFailure`) — instead of taking its shape from the observation; the Spec knows a failed exchange. -/
 def dialOutcome (dc : DialCtx) (tok : String) : Option (HttpOutcome × Truth) :=
   match natAfter "fe" tok with
-  | some n => some (.doErr (dialFailure dc.gun dc.dnsCache false dc.redirect (.refused n)), .failed)
-  | none => if tok == "dt" then some (.doErr (dialFailure dc.gun dc.dnsCache false dc.redirect .timedOut), .failed) else none
+  | some n => some (.doErr (dialFailure dc.gun dc.dnsCache dc.cached dc.redirect (.refused n)), .failed)
+  | none => if tok == "dt" then some (.doErr (dialFailure dc.gun dc.dnsCache dc.cached dc.redirect .timedOut), .failed) else none
 
 /-- outcome (model) and ground truth (Spec) of ONE exchange from the script's truth token, the error shape the real gun
 recorded and the status it reported (a body broken by a reset may also lose the head) -/
@@ -227,7 +230,7 @@ def handleHttp (kv : List (String × String)) (impl : String) : String × String
         let shp := outcomeShape outcome
         let line := rep.map fun s => fmtSample true s shp
         let exp := Spec.C10.expectedTag cfg.enabled cfg.uriElements cfg.noTagOnly r.tag r.path
-        (line, Spec.C10.judgeHttp exp truth (mine.map ObsS.toObs))
+        (line, Spec.C10.judgeHttp exp truth (mine.map ObsS.toObs), (rep.head?.map Sample.net).getD 0)
       let stray := obs.filter fun o => o.id == 0 || o.id > reqs.length
       -- several instances (inst>1): the harness numbers the samples by REQUEST (unique tag r<i>) and lists the real ids
       -- separately; the model (`runIds`: one atomic Add per acquisition, in whatever order) says they are a permutation
@@ -241,10 +244,26 @@ def handleHttp (kv : List (String × String)) (impl : String) : String × String
       let vIds := if multi && !Spec.C10.idsUnique implIds then
           s!"fail:ids:{implIds.length} samples carry ids {getS ikv "ids"}"
         else "ok"
+      -- round 4, `dref=1`: the same requests once more with `dial.dns-cache` off; the model predicts the codes of that run
+      -- too (`dialFailure … (dnsCache := false)`), the Spec demands that the two runs are coded alike
+      let dref := getS kv "dref" == "1"
+      let dcPlain : DialCtx := { dialCtxOf kv with dnsCache := false }
+      -- (a request that is not a failed dial is coded as in the main run: the dialer has no part in it)
+      let modelRef : List Nat := idx.map fun i =>
+        match dialOutcome dcPlain (reqs[i]!).truth with
+        | some (.doErr e, _) => getErrno e
+        | _ => ((rows[i]?).map (·.2.2)).getD 0
+      let refField := if !dref then "" else " ref=" ++ String.intercalate "," (modelRef.map toString)
+      let implRef : Option (List Nat) := (splitList (getS ikv "ref") ",").mapM String.toNat?
+      let vRef := if !dref then "ok" else
+        match implRef with
+        | none => s!"fail:run:reference run with dial.dns-cache off: {getS ikv "ref"}"
+        | some ref => Spec.C10.judgeDialerIndependent
+            ((idx.map fun i => (obs.filter (·.id == i + 1)).head?.map (·.net)).filterMap id) ref
       let v := if res != "ok" then s!"fail:run:{res}"
                else if !stray.isEmpty then "fail:count:sample with an id no request carries"
-               else firstFail (rows.map (·.2) ++ [vIds])
-      (fmtLine "ok" (rows.flatMap (·.1)) ++ idsField, v)
+               else firstFail (rows.map (·.2.1) ++ [vIds, vRef])
+      (fmtLine "ok" (rows.flatMap (·.1)) ++ idsField ++ refField, v)
 
 /-- `pan=1`: the http2 gun against a TLS target without HTTP/2 — the documented fatal condition. `Do` panics, the deferred
 `Report` still delivers the one sample (proto 0, net 0), the engine aborts the run. Judged: one sample, right tag. -/
